@@ -53,6 +53,29 @@ example : entryBits [405753591161026837, 2206043092153046979, 673091865470430431
 
 theorem size_eq_v4 (c : Consts) (s : Image) : (encodeV4 c s).length = serializedSizeV4 s := length_encodeV4 c s
 
+/-- the compressed image is never larger than the uncompressed one (so `get_max_serialized_size_bytes` bounds both). -/
+theorem size_v4_le (s : Image) (h4 : WFv4 s) : serializedSizeV4 s ≤ serializedSize s := by
+  obtain ⟨hwf, hsuit, hasc, h63⟩ := h4
+  obtain ⟨_, hemp, hne⟩ := suitable_facts s hwf hsuit
+  have heb := entryBits_le_63 s.entries h63
+  have hneb := numEntriesBytes_le_4 _ hwf.2.2.2.1
+  have hn : 1 ≤ s.entries.length := by
+    cases h : s.entries with
+    | nil => exact absurd h hne
+    | cons a t => simp
+  have hmul : entryBits s.entries * s.entries.length ≤ 63 * s.entries.length := Nat.mul_le_mul_right _ heb
+  have hbytes : BitPack.bytesForBits (entryBits s.entries * s.entries.length) ≤ 8 * s.entries.length := by
+    unfold BitPack.bytesForBits; omega
+  unfold serializedSizeV4 serializedSize preLongs
+  by_cases hest : s.estMode = true
+  · simp only [hest, ↓reduceIte]; omega
+  · have hest' : s.estMode = false := by simpa using hest
+    simp only [suitable, Bool.and_eq_true, bne_iff_ne, ne_eq, Bool.not_eq_true', Bool.and_eq_false_imp, beq_iff_eq, hest', Bool.not_false] at hsuit
+    have h1 : s.entries.length ≠ 1 := by
+      intro h; have := hsuit.2 h; simp at this
+    simp only [hest', Bool.false_eq_true, ↓reduceIte, hemp, Bool.false_or, beq_iff_eq, h1]
+    omega
+
 /-- the delta-sum lemma. -/
 theorem delta_sum (es : List Nat) (hasc : ascFrom 0 es) (hlt : ∀ e ∈ es, e < 2 ^ 64) : undelta 0 (deltas 0 es) = es :=
   undelta_deltas 0 es hasc hlt
